@@ -28,7 +28,7 @@
 EXTENDS Naturals, Sequences, FiniteSets, TLC, Json, Vocab
 
 CONSTANTS
-    Mode,      \* "model" | "soup" | "sim" | "min" | "mut" | "mutsim" | "mutw"
+    Mode,      \* "model" | "soup" | "sim" | "min" | "mut" | "mutsim" | "mutw" | "lex" | "lextime"
     MaxLen,    \* soups: number of Emit steps after the root; sim: maximal length
     Roots,     \* soups: classes the soup may start with; "-" = bare root (nothing before the soup)
     Alphabet,  \* soups: classes Emit may append (a subset of Classes)
@@ -42,7 +42,7 @@ VARIABLES soup,      \* the token classes so far (mutw: token ids)
           outcome,   \* "none" until Loads
           muts,      \* mutations applied so far
           base,      \* mut: index of the canonical document; sim: target length
-          rtype      \* min: concrete root block type ("" otherwise)
+          rtype      \* min: concrete root block type; lex: the lexeme case ("" otherwise)
 
 vars == <<soup, prev, rets, outcome, muts, base, rtype>>
 
@@ -136,6 +136,26 @@ SpliceAt(s, i, d)  == SubSeq(s, 1, i) \o d \o SubSeq(s, i + 1, Len(s))   \* dono
 \* id + BrokenBase names "the broken spelling of token id".
 BrokenBase == 1000
 BreakClass(c) == CASE c \in {"STR", "HEX"} -> "USTR" [] c = "REX" -> "UREX" [] c = "CMT" -> "UCMT" [] OTHER -> c
+
+-----------------------------------------------------------------------------
+(* Single lexemes with a delimiter (strings, regular expressions, runtime variables,      *)
+(* comments): opened by d, filled with n copies of the unit u, closed or not, in a context *)
+
+LexDelims   == {"dq", "sq", "bq", "re", "re2", "rv", "cc", "lc"}      \* " ' ` / \\ % /* #
+LexUnits    == {"x", "bs", "bsbs", "bsdq", "bssq", "dq", "sq", "bq", "star", "slash", "starslash", "sp", "nl", "pct", "hash", "uni"}
+LexContexts == {"value", "expr", "kv", "root", "proj", "list"}
+LexLens     == {0, 1, 7, 32, 40, 300}
+\* a unit that would close the lexeme itself is not a filler
+Closes(d, u) == \/ (d = "dq" /\ u = "dq")
+                \/ (d = "sq" /\ u = "sq")
+                \/ (d = "bq" /\ u = "bq")
+                \/ (d = "re" /\ u \in {"slash", "starslash"})
+                \/ (d = "rv" /\ u = "pct")
+                \/ (d = "cc" /\ u = "starslash")
+                \/ (d = "lc" /\ u = "nl")
+LexCases == {c \in [d : LexDelims, u : LexUnits, closed : BOOLEAN, ctx : LexContexts, n : LexLens] : ~Closes(c.d, c.u)}
+\* the (delimiter, unit, closed) combinations whose time is measured over a x100 length range
+LexTimed == {c \in [d : LexDelims, u : LexUnits, closed : BOOLEAN] : ~Closes(c.d, c.u)}
 
 -----------------------------------------------------------------------------
 (* State machine                                                           *)
@@ -250,6 +270,12 @@ Init ==
        \/ /\ Mode = "mutw"
           /\ base = 0 /\ rtype = ""
           /\ soup = [i \in 1..N |-> i]
+       \/ /\ Mode = "lex"
+          /\ base = 0 /\ soup = <<>>
+          /\ rtype \in LexCases
+       \/ /\ Mode = "lextime"
+          /\ base = 0 /\ soup = <<>>
+          /\ rtype \in LexTimed
     /\ prev = IF Tracked THEN Through(soup).p ELSE NoPrev
     /\ rets = IF Tracked THEN Through(soup).r ELSE <<>>
 
@@ -259,7 +285,7 @@ Next ==
     \/ /\ Mode \in {"model", "soup"}
        /\ Steps < MaxLen + RootLen
        /\ \E c \in Alphabet : Emit(c)
-    \/ /\ Mode \in {"model", "min"}
+    \/ /\ Mode \in {"model", "min", "lex", "lextime"}
        /\ Loads
     \/ /\ Mode = "sim"
        /\ Steps < base
@@ -306,18 +332,33 @@ RetypeSound ==
         /\ (i > 1 /\ soup[i] = "GRD") => (rets[i] = ValueTy) = (soup[i - 1] = "NAM")
 
 \* the judgement of one recorded outcome (TraceParseLoop applies it to what the real code did):
-\* kind in {"ok","larkerror","other"}; for syntax errors line and column must be usable
+\*   kind  in {"ok","larkerror","other"}
+\*   stage "parse" = the exception came out of lexing / parsing the text (Parser.parse), i.e. it IS a
+\*         syntax error whatever class of the Lark family it has; "transform" = raised while the tree
+\*         is turned into a dict (VisitError); "none" for a result.
+\* A syntax error must carry a usable line and column - also when it is reported as a plain
+\* ParseError / LexError rather than an UnexpectedInput.
 PosOK(line, col, nlines) == /\ line >= 1 /\ line <= nlines + 1 /\ col >= 1
+IsSyntaxError(r) == r.kind = "larkerror" /\ r.stage = "parse"
 OutcomeOK(r) ==
     /\ r.kind \in {"ok", "larkerror"}
-    /\ (r.kind = "larkerror" /\ r.syntax) => (r.haspos /\ PosOK(r.line, r.col, r.nlines))
+    /\ IsSyntaxError(r) => (r.haspos /\ PosOK(r.line, r.col, r.nlines))
     /\ (r.kind = "ok") => r.isdict
+
+\* "promptly": the one formula of the timing clause.  The harness measures CPU time (microseconds)
+\* at n0 and n1 = k * n0 tokens / characters; the model does not predict the numbers, it only fixes
+\* how they are judged: within TimeFactor x the linear extrapolation, or below an absolute floor.
+TimeFactor  == 20
+TimeFloorUs == 1000000
+TimeOK(r) == \/ r.t1us <= TimeFloorUs
+             \/ r.t1us \div (r.n1 \div r.n0) <= TimeFactor * r.t0us
 
 -----------------------------------------------------------------------------
 (* Emission (G): behaviours as JSON lines                                  *)
 
 \* printed once per TLC run: the default allowed outcomes come from the spec, not from the harness
-Header == [hdr |-> "ParseLoop", allowed |-> Allowed(<<"JNK">>), classes |-> Classes, mutops |-> MutOps]
+Header == [hdr |-> "ParseLoop", allowed |-> Allowed(<<"JNK">>), classes |-> Classes, mutops |-> MutOps,
+           timefactor |-> TimeFactor, timefloorus |-> TimeFloorUs]
 ASSUME PrintT(ToJson(Header))
 
 \* exhaustive soups: one line per state.  A bare array is a soup with the header's allowed
@@ -328,6 +369,8 @@ EmitSoup == IF IsMinimal(soup) THEN PrintT(ToJson([s |-> soup, allowed |-> Allow
 EmitSim == (Steps = base) => PrintT(ToJson(soup))
 
 EmitMin == outcome = "none" => PrintT(ToJson([s |-> soup, allowed |-> Allowed(soup), t |-> rtype]))
+
+EmitLex == outcome = "none" => PrintT(ToJson([lex |-> rtype, allowed |-> Allowed(<<"JNK">>)]))
 
 \* tail: does the text after the mutated window survive (index level)?  not after a truncation
 TailKept == \A m \in 1..Len(muts) : muts[m].op # "truncate"
